@@ -259,6 +259,10 @@ def run_unit(unit, tier):
                         except BaseException:
                             continue
                         res["fidelity"]["stress_points"] = res["fidelity"].get("stress_points", 0) + 1
+                        if vkind == "point" and unit.stress.get("points_only"):
+                            # only the assertions named for boundary points are float-robust there (the reference
+                            # derivatives of a kernel lose digits at 1e-10-sized arguments; its value does not)
+                            cs.failed = [l_ for l_ in cs.failed if any(sub in l_ for sub in unit.stress["points_only"])]
                         if cs.failed:
                             res["violations"].append({"unit": unit.name, "label": cs.failed[0] + (" [float stress point]" if vkind == "scale" else " [boundary point]"), "kind": "assertion", "path": p.index,
                                                       "values": sv, "replay": {"reproduced": True, "how": "concrete run of the real code at an extreme but valid input (%s %s); outside the solver's bounded real-arithmetic claim, a failing input nonetheless" % ("inputs scaled by" if vkind == "scale" else "boundary point", factor_set),
